@@ -170,22 +170,24 @@ type Gen struct {
 	structs map[string][]member
 	sname   string
 
-	fnRet     *ty
-	stage     string
-	loops     int
-	switches  int
-	scRHS     int
-	ed        int // expression depth
-	noMustUse int
-	modConst  bool // inside a module-scope constant initialiser
-	inCont    bool
-	nameCtr   int
-	nonASCII  bool
-	comments  bool
-	used      bool            // non-ASCII actually used
-	budget    int             // remaining statements for the current function
-	constVal  map[string]int  // values of the generated integer module constants
-	localVar  map[string]bool // function-scope `var`s (their address may be taken)
+	fnRet        *ty
+	stage        string
+	loops        int
+	switches     int
+	scRHS        int
+	ed           int // expression depth
+	noMustUse    int
+	forceOperand bool // the next mixed-kind condition is a plain comparison with a literal right operand
+	modConst     bool // inside a module-scope constant initialiser
+	inCont       bool
+	nameCtr      int
+	nonASCII     bool
+	comments     bool
+	used         bool              // non-ASCII actually used
+	budget       int               // remaining statements for the current function
+	constVal     map[string]int    // values of the integer constants whose value the generator knows
+	constKind    map[string]string // their kind: u (u32), i (i32), a (AbstractInt)
+	localVar     map[string]bool   // function-scope `var`s (their address may be taken)
 }
 
 // ---------------------------------------------------------------- emission
